@@ -260,6 +260,9 @@ type invertedIndex struct {
 
 	family kv.Family
 	lock   sync.RWMutex
+
+	// switchAgain is set when a flush is prepared while the immutable store of a failed flush is still there
+	switchAgain bool
 }
 
 func newInvertedIndex(family kv.Family) *invertedIndex {
@@ -357,6 +360,10 @@ func (ii *invertedIndex) prepareFlush() {
 	if ii.immutable == nil || ii.immutable.IsEmpty() {
 		ii.immutable = ii.mutable
 		ii.mutable = imap.NewIntMap[*roaring.Bitmap]()
+	} else {
+		// NOTE: immutable store of a failed flush is still there, it is flushed first by the coming flush,
+		// then need switch/flush again, else what was written since then isn't part of the coming flush.
+		ii.switchAgain = true
 	}
 }
 
@@ -368,6 +375,25 @@ func (ii *invertedIndex) needFlush() bool {
 }
 
 func (ii *invertedIndex) flush() (err error) {
+	if err = ii.flushImmutable(); err != nil {
+		return err
+	}
+	ii.lock.Lock()
+	switchAgain := ii.switchAgain
+	if switchAgain {
+		ii.switchAgain = false
+		ii.immutable = ii.mutable
+		ii.mutable = imap.NewIntMap[*roaring.Bitmap]()
+	}
+	ii.lock.Unlock()
+	if switchAgain {
+		return ii.flushImmutable()
+	}
+	return nil
+}
+
+// flushImmutable flushes the immutable store.
+func (ii *invertedIndex) flushImmutable() (err error) {
 	if !ii.needFlush() {
 		return nil
 	}
@@ -410,6 +436,9 @@ type forwardIndex struct {
 	family kv.Family // tag key id => [time series ids -> tag value ids)
 
 	lock sync.RWMutex
+
+	// switchAgain is set when a flush is prepared while the immutable store of a failed flush is still there
+	switchAgain bool
 }
 
 func newForwardIndex(family kv.Family) *forwardIndex {
@@ -581,6 +610,10 @@ func (fi *forwardIndex) prepareFlush() {
 	if fi.immutable == nil || fi.immutable.IsEmpty() {
 		fi.immutable = fi.mutable
 		fi.mutable = imap.NewIntMap[*imap.IntMap[uint32]]()
+	} else {
+		// NOTE: immutable store of a failed flush is still there, it is flushed first by the coming flush,
+		// then need switch/flush again, else what was written since then isn't part of the coming flush.
+		fi.switchAgain = true
 	}
 }
 
@@ -592,6 +625,25 @@ func (fi *forwardIndex) needFlush() bool {
 }
 
 func (fi *forwardIndex) flush() (err error) {
+	if err = fi.flushImmutable(); err != nil {
+		return err
+	}
+	fi.lock.Lock()
+	switchAgain := fi.switchAgain
+	if switchAgain {
+		fi.switchAgain = false
+		fi.immutable = fi.mutable
+		fi.mutable = imap.NewIntMap[*imap.IntMap[uint32]]()
+	}
+	fi.lock.Unlock()
+	if switchAgain {
+		return fi.flushImmutable()
+	}
+	return nil
+}
+
+// flushImmutable flushes the immutable store.
+func (fi *forwardIndex) flushImmutable() (err error) {
 	if !fi.needFlush() {
 		return nil
 	}
